@@ -95,7 +95,9 @@ def explain (cfg : Cfg) (n : Node) (b : Nat) : String :=
   let (src, agg?) : String × Option Agg :=
     if w == n.running.from_ then ("running", some n.running)
     else match n.cache.lookup w with
-      | some a => ("cache", some a)
+      | some a =>
+        -- a cached copy identical to the persisted window has the persisted window's defect
+        (if n.persisted.lookup w == some a then "persisted" else "cache", some a)
       | none => match n.persisted.lookup w with
         | some a => ("persisted", some a)
         | none => ("none", none)
